@@ -289,19 +289,35 @@ theorem mem_invariant (l m : Nat) (ops : List MOp) : MemInv ((Mem.init l m).run 
     writers retry), i.e. in every state the correspondence harness compares. -/
 theorem mem_invariant_settled (s : Mem) (h : MemInv s) : MemInv s.settle := settle_inv s h
 
-/-- **mem_history_records_appends.** The ghost history is tied to the appends: one
-    operation leaves it alone, or appends to it bytes of the chunk handed to the
-    stream writer (by this call, or by an earlier call that was blocked on capacity
-    and is retried now), or starts a new, empty history (reset, new snapshot, first
-    writer of a history). -/
+/-- **mem_history_records_appends.** The ghost history is tied to the operations'
+    INPUT and OUTPUT: one operation leaves it alone; or it is an `aofAppend chunk` that
+    reports `.ok` and recorded the WHOLE chunk, or reports `.blocked n` and recorded
+    exactly the first `n` bytes with the rest waiting in `pendA`; or it is the retry of
+    such a blocked append and records a prefix of what was waiting (the rest keeps
+    waiting, or nothing waits any more); or it is one of the three operations that
+    start a new, empty history (`newRdbWriter`, `delRunId`, the first `newAofWriter`
+    of a history). A writer that is closed or replaced while it is blocked loses the
+    waiting bytes (`finishAof` clears `pendA`, as the code's `io.EOF`): they never
+    enter the history. -/
 theorem mem_history_records_appends (l m : Nat) (ops : List MOp) (op : MOp) :
     let s := (Mem.init l m).run ops
     ((s.step op).1.hbase = s.hbase ∧ (s.step op).1.hist = s.hist) ∨
-    (∃ chunk k, op = .aofAppend chunk ∧ (s.step op).1.hbase = s.hbase ∧ (s.step op).1.hist = s.hist ++ chunk.take k) ∨
+    (∃ chunk, op = .aofAppend chunk ∧ (s.step op).1.hbase = s.hbase ∧
+        (((s.step op).2 = .ok ∧ (s.step op).1.hist = s.hist ++ chunk) ∨
+         (∃ n, (s.step op).2 = .blocked n ∧ (s.step op).1.hist = s.hist ++ chunk.take n ∧
+            (s.step op).1.pendA = some (chunk.drop n)))) ∨
     (∃ buf k, op = .retryAppend ∧ s.pendA = some buf ∧ (s.step op).1.hbase = s.hbase ∧
-        (s.step op).1.hist = s.hist ++ buf.take k) ∨
-    (s.step op).1.hist = [] :=
+        (s.step op).1.hist = s.hist ++ buf.take k ∧
+        ((s.step op).1.pendA = some (buf.drop k) ∨ (s.step op).1.pendA = none)) ∨
+    ((s.step op).1.hist = [] ∧ op.resetsHistory = true) :=
   step_hist _ op (mem_invariant l m ops)
+
+/-- a writer that goes takes its blocked append with it (`finishAof`, reached from
+    `aofClose` and from the replacement inside `newAofWriter`) -/
+theorem mem_closed_writer_drops_pending (l m : Nat) (ops : List MOp) (cur : Nat) (isCurrent : Bool) :
+    let s := (Mem.init l m).run ops
+    (isCurrent = false → s.aofW ≠ some cur) → (s.finishAof cur isCurrent).pendA = none :=
+  fun hw => (finishAof_inv _ cur isCurrent (mem_invariant l m ops) hw).2.2.2
 
 /-- **mem_refines.** After ANY operation list, what the memory cache holds under
     its run id (`Mem.abs`: the newest contiguous run of indexed segments) is the
@@ -336,15 +352,22 @@ theorem mem_reader_delivers (l m : Nat) (ops : List MOp) :
   exact ⟨this.inl, this.inr, this.base, this.ord, this.out⟩
 
 /-- **mem_valid_iff_readable.** After ANY operation list: an offset is reported
-    valid (`inRangeLocked`) exactly if a reader can be opened there (fresh reader id) … -/
+    valid (`inRangeLocked`) exactly if a reader CAN BE OPENED there (fresh reader id).
+    What kind of reader: a stream reader exactly at that offset when the log covers it
+    (`mem_open_stream_reader`; what it then delivers is `mem_reader_delivers`), else a
+    REPLAY OF THE OFFERED SNAPSHOT for an offset up to the snapshot's
+    (`mem_valid_uncovered_is_snapshot_replay`). NOT claimed: that the log from the
+    snapshot's offset on is held — after a replay the consumer stands at the snapshot's
+    own offset, which is valid only while the log starts there or nothing is held
+    (`mem_snapshot_offset_needs_handover`, a3509d3); otherwise the source is asked. -/
 theorem mem_valid_iff_readable (l m : Nat) (ops : List MOp) (rid off : Nat) :
     let s := (Mem.init l m).run ops
     mFindReader s.readers rid = none →
       (s.inRange (off : Int) = true ↔ (s.open rid off).2 ≠ Out.notExist) :=
   fun hf => mem_inRange_iff_open _ (mem_invariant l m ops) rid off hf
 
-/-- … a stream reader opened there starts inside an indexed segment at exactly that
-    offset with nothing delivered (what it delivers from then on is `mem_reader_delivers`) … -/
+/-- (named corollary of `Mem.open` + the index invariant) a stream reader opened there
+    starts inside an indexed segment at exactly that offset with nothing delivered … -/
 theorem mem_open_stream_reader (l m : Nat) (ops : List MOp) (rid off : Nat) :
     let s := (Mem.init l m).run ops
     (s.open rid off).2 = Out.aof off →
@@ -369,11 +392,35 @@ theorem mem_open_stream_reader (l m : Nat) (ops : List MOp) (rid off : Nat) :
         repeat' split at h
         all_goals cases h
 
-/-- … and the snapshot's own offset (the position a completed replay leaves) is valid
-    only while the log starts there or nothing is held — the rule of a3509d3. -/
+/-- (named corollary: unfolds the a3509d3 clause of `Mem.inRange`, any state) the
+    snapshot's own offset — the position a completed replay leaves — is valid only while
+    the log starts there or nothing is held. -/
 theorem mem_snapshot_offset_needs_handover (s : Mem) (rd : MRdb) (hro : s.rdbOffered = some rd)
     (hv : s.inRange (rd.left : Int) = true) : (s.indexAof rd.left).isSome = true ∨ s.segs = [] :=
   snapshot_offset_valid s rd hro hv
+
+/-- (named corollary) a valid offset the log does not cover is served by a replay of the
+    offered snapshot, and lies at or before the snapshot's offset -/
+theorem mem_valid_uncovered_is_snapshot_replay (l m : Nat) (ops : List MOp) (rid off : Nat) :
+    let s := (Mem.init l m).run ops
+    mFindReader s.readers rid = none → s.inRange (off : Int) = true → s.indexAof off = none →
+      ∃ rd, s.rdbOffered = some rd ∧ off ≤ rd.left ∧ (s.open rid off).2 = Out.rdb rd.left rd.size := by
+  intro s hf hin hidx
+  have hinv := mem_invariant l m ops
+  have hne := (mem_inRange_iff_open s hinv rid off hf).mp hin
+  unfold Mem.open at hne ⊢
+  simp only [hf, Option.isSome_none, Bool.false_eq_true, if_false, hin, Bool.not_true, hidx] at hne ⊢
+  cases hro : s.rdbOffered with
+  | none => rw [hro] at hne; simp at hne
+  | some rd =>
+    rw [hro] at hne
+    dsimp only at hne ⊢
+    by_cases hle : off ≤ rd.left
+    · simp only [hle, if_true] at hne ⊢
+      cases hsg : rd.segs with
+      | nil => rw [hsg] at hne; simp at hne
+      | cons first rest => exact ⟨rd, rfl, hle, rfl⟩
+    · simp [hle] at hne
 
 /-- **mem_snapshot_offered_complete_or_live.** After ANY operation list, a snapshot
     that is offered (`GetRdb` ≠ (-1,-1)) is being received or was received
